@@ -100,3 +100,87 @@ Definition exempt : list (string * exclass) := [
    ri_mercurius.recalculate_r_crit_this_timestep until /repo commit 9e6f362 (now descriptor 171);
    N_allocated_collisions (read by TRACE as a "collision happened" flag) until /repo commit 621058f. *)
 Definition known_gaps : list string := [].
+
+(* AUDITED READERS.  For every exempt member: the source files that are allowed to READ it (anything but a plain
+   assignment).  Baseline = the readers found in the tree at /repo commit 5e0a0a8, each reviewed against the reason class
+   above (e.g. ri_trace.mode / ri_mercurius.mode are NONE/0 between steps and in a fresh simulation, so particle.c
+   reading them in a user-called remove() sees the same value in the original and in a restored simulation; ri_trace.com_vel
+   is read by collision.c only inside a TRACE step; gravity_cs by IAS15 only after the force evaluation of the same step).
+   The theorem C05_exempt_readers_audited fails when a file outside this list starts reading an exempt member - the way
+   "N_allocated_collisions read by integrator_trace.c as a flag" (fixed in 621058f) came into being - and the entry then
+   has to be re-audited (or the member persisted). *)
+Definition exempt_readers : list (string * list string) := [
+  ("var_rescale_warning", ["tools.c"]);
+  ("particle_lookup_table", ["particle.c"; "rebound.c"]);
+  ("N_lookup", ["particle.c"]);
+  ("N_allocated_lookup", ["particle.c"]);
+  ("N_allocated", ["input.c"; "particle.c"]);
+  ("gravity_cs", ["gravity.c"; "integrator_ias15.c"; "rebound.c"]);
+  ("N_allocated_gravity_cs", ["gravity.c"]);
+  ("tree_root", ["boundary.c"; "collision.c"; "gravity.c"; "particle.c"; "rebound.c"; "tree.c"]);
+  ("tree_needs_update", ["rebound.c"]);
+  ("messages", ["rebound.c"]);
+  ("display_data", []);
+  ("server_data", ["output.c"; "rebound.c"; "server.c"]);
+  ("walltime_last_step", ["rebound.c"]);
+  ("walltime_last_steps_sum", ["rebound.c"]);
+  ("walltime_last_steps_N", ["rebound.c"]);
+  ("collisions", ["collision.c"; "rebound.c"]);
+  ("N_allocated_collisions", ["collision.c"]);
+  ("simulationarchive_filename", ["rebound.c"; "simulationarchive.c"]);
+  ("ri_whfast.p_temp", ["integrator_saba.c"; "integrator_whfast.c"]);
+  ("ri_whfast.N_allocated_tmp", ["integrator_saba.c"; "integrator_whfast.c"]);
+  ("ri_whfast.recalculate_coordinates_but_not_synchronized_warning", ["integrator_whfast.c"]);
+  ("ri_whfast512.recalculate_constants", []);
+  ("ri_ias15.map", ["integrator_ias15.c"]);
+  ("ri_ias15.N_allocated_map", ["integrator_ias15.c"]);
+  ("ri_mercurius.L", ["gravity.c"; "integrator_mercurius.c"]);
+  ("ri_mercurius.mode", ["collision.c"; "gravity.c"; "integrator.c"; "particle.c"]);
+  ("ri_mercurius.encounter_N", ["collision.c"; "gravity.c"; "integrator_ias15.c"; "integrator_mercurius.c"; "particle.c"]);
+  ("ri_mercurius.encounter_N_active", ["gravity.c"; "integrator_mercurius.c"; "particle.c"]);
+  ("ri_mercurius.tponly_encounter", ["integrator_mercurius.c"]);
+  ("ri_mercurius.N_allocated", ["integrator_mercurius.c"; "particle.c"]);
+  ("ri_mercurius.N_allocated_additional_forces", ["integrator.c"]);
+  ("ri_mercurius.particles_backup", ["integrator_mercurius.c"; "particle.c"]);
+  ("ri_mercurius.particles_backup_additional_forces", ["integrator.c"; "integrator_mercurius.c"]);
+  ("ri_mercurius.encounter_map", ["collision.c"; "gravity.c"; "integrator_ias15.c"; "integrator_mercurius.c"; "particle.c"]);
+  ("ri_trace.S", ["integrator_trace.c"; "output.c"]);
+  ("ri_trace.S_peri", ["integrator_trace.c"; "output.c"]);
+  ("ri_trace.mode", ["collision.c"; "gravity.c"; "integrator.c"; "integrator_ias15.c"; "particle.c"]);
+  ("ri_trace.encounter_N", ["collision.c"; "gravity.c"; "integrator_ias15.c"; "integrator_trace.c"; "particle.c"]);
+  ("ri_trace.encounter_N_active", ["gravity.c"; "integrator_trace.c"; "particle.c"]);
+  ("ri_trace.N_allocated", ["integrator_trace.c"; "particle.c"]);
+  ("ri_trace.N_allocated_additional_forces", ["integrator.c"]);
+  ("ri_trace.tponly_encounter", ["integrator_trace.c"]);
+  ("ri_trace.particles_backup", ["integrator_trace.c"; "particle.c"]);
+  ("ri_trace.particles_backup_kepler", ["integrator_trace.c"; "particle.c"]);
+  ("ri_trace.particles_backup_additional_forces", ["integrator.c"; "integrator_trace.c"]);
+  ("ri_trace.encounter_map", ["collision.c"; "gravity.c"; "integrator_ias15.c"; "integrator_trace.c"; "particle.c"]);
+  ("ri_trace.com_pos", ["integrator_trace.c"]);
+  ("ri_trace.com_vel", ["collision.c"; "integrator_trace.c"]);
+  ("ri_trace.current_Ks", ["gravity.c"; "integrator_trace.c"; "particle.c"]);
+  ("ri_trace.current_C", ["integrator_trace.c"]);
+  ("ri_trace.force_accept", ["integrator_trace.c"]);
+  ("ri_bs.nbody_ode", ["integrator_bs.c"]);
+  ("ri_bs.sequence", ["integrator_bs.c"]);
+  ("ri_bs.cost_per_step", ["integrator_bs.c"]);
+  ("ri_bs.cost_per_time_unit", ["integrator_bs.c"]);
+  ("ri_bs.optimal_step", ["integrator_bs.c"]);
+  ("ri_bs.coeff", ["integrator_bs.c"]);
+  ("ri_bs.dt_proposed", ["integrator.c"; "integrator_bs.c"; "integrator_trace.c"]);
+  ("ri_bs.user_ode_needs_nbody", ["integrator_bs.c"]);
+  ("odes", ["integrator_bs.c"; "integrator_trace.c"; "rebound.c"]);
+  ("N_odes", ["integrator.c"; "integrator_bs.c"; "integrator_trace.c"; "rebound.c"]);
+  ("N_allocated_odes", ["integrator_bs.c"; "integrator_trace.c"]);
+  ("ode_warnings", ["integrator.c"]);
+  ("additional_forces", ["integrator.c"; "integrator_ias15.c"; "output.c"; "rebound.c"]);
+  ("pre_timestep_modifications", ["rebound.c"]);
+  ("post_timestep_modifications", ["integrator_mercurius.c"; "output.c"; "rebound.c"]);
+  ("heartbeat", ["output.c"; "rebound.c"]);
+  ("key_callback", ["server.c"]);
+  ("coefficient_of_restitution", ["collision.c"; "output.c"; "rebound.c"]);
+  ("collision_resolve", ["collision.c"; "output.c"; "rebound.c"]);
+  ("free_particle_ap", ["output.c"; "particle.c"; "rebound.c"]);
+  ("extras_cleanup", ["rebound.c"]);
+  ("extras", [])
+].
